@@ -75,18 +75,26 @@ impl Mk for SmallVec<[u8; 2]> {
     }
 }
 
-fn any_valid<C: Mk>() -> SlidingDeque<C> {
+/// Drive `f` from EVERY valid state whose backing container has at most N elements: length and
+/// consumed prefix are enumerated by concrete loops (CBMC's memmove model -- copy_within in `slide`
+/// -- does not finish on symbolic sizes), the contents are symbolic.
+fn for_each_state<C: Mk>(f: fn(SlidingDeque<C>)) {
     let arr: [u8; N] = kani::any();
-    let len: usize = kani::any();
-    kani::assume(len <= N);
-    let consumed: usize = kani::any();
-    let d = SlidingDeque { consumed_prefix: consumed, container: C::mk(&arr[..len]) };
-    kani::assume(rep_ok(&d));
-    d
+    let mut len = 0;
+    while len <= N {
+        let mut consumed = 0;
+        while consumed <= len / 2 {
+            let d = SlidingDeque { consumed_prefix: consumed, container: C::mk(&arr[..len]) };
+            if rep_ok(&d) {
+                f(d);
+            }
+            consumed += 1;
+        }
+        len += 1;
+    }
 }
 
-fn h_push_back<C: Mk>() {
-    let mut d = any_valid::<C>();
+fn h_push_back<C: Mk>(mut d: SlidingDeque<C>) {
     let v = view_of(&d);
     let x: u8 = kani::any();
     d.push_back(x);
@@ -105,8 +113,7 @@ fn h_push_back<C: Mk>() {
     kani::cover!(d.consumed_prefix > 0);
 }
 
-fn h_pop_front<C: Mk>() {
-    let mut d = any_valid::<C>();
+fn h_pop_front<C: Mk>(mut d: SlidingDeque<C>) {
     let v = view_of(&d);
     let r = d.pop_front();
     assert!(rep_ok(&d));
@@ -123,8 +130,7 @@ fn h_pop_front<C: Mk>() {
     kani::cover!(v.len > 1 && d.consumed_prefix > 0);
 }
 
-fn h_pop_back<C: Mk>() {
-    let mut d = any_valid::<C>();
+fn h_pop_back<C: Mk>(mut d: SlidingDeque<C>) {
     let v = view_of(&d);
     let r = d.pop_back();
     assert!(rep_ok(&d));
@@ -140,30 +146,35 @@ fn h_pop_back<C: Mk>() {
     kani::cover!(v.len > 1);
 }
 
-fn h_advance<C: Mk>() {
-    let mut d = any_valid::<C>();
+fn h_advance<C: Mk>(mut d: SlidingDeque<C>) {
     let v = view_of(&d);
-    let count: usize = kani::any(); // every usize, including > len and usize::MAX
-    let r = d.advance(count);
-    assert!(rep_ok(&d));
-    let expect = if count < v.len { count } else { v.len };
-    assert!(r == expect);
-    assert!(view_is(&d, &v, expect, v.len - expect));
-    kani::cover!(count > v.len);
-    kani::cover!(count == usize::MAX);
-    kani::cover!(count > 0 && count < v.len);
+    // counts 0..=N+1 concretely, plus the top of the usize range
+    let base = d;
+    let v = view_of(&base);
+    let mut k = 0;
+    while k <= N + 4 {
+        let count = if k <= N + 1 { k } else if k == N + 2 { usize::MAX } else if k == N + 3 { usize::MAX - 1 } else { 1usize << 63 };
+        let mut d = base.clone();
+        let r = d.advance(count);
+        assert!(rep_ok(&d));
+        let expect = if count < v.len { count } else { v.len };
+        assert!(r == expect);
+        assert!(view_is(&d, &v, expect, v.len - expect));
+        kani::cover!(count > v.len);
+        kani::cover!(count == usize::MAX);
+        kani::cover!(count > 0 && count < v.len);
+        k += 1;
+    }
 }
 
-fn h_clear<C: Mk>() {
-    let mut d = any_valid::<C>();
+fn h_clear<C: Mk>(mut d: SlidingDeque<C>) {
     d.clear();
     assert!(rep_ok(&d));
     assert!(d.len() == 0 && d.is_empty());
     assert!(d.front().is_none() && d.back().is_none());
 }
 
-fn h_slide<C: Mk>() {
-    let mut d = any_valid::<C>();
+fn h_slide<C: Mk>(mut d: SlidingDeque<C>) {
     let v = view_of(&d);
     d.slide();
     assert!(rep_ok(&d));
@@ -172,10 +183,9 @@ fn h_slide<C: Mk>() {
     kani::cover!(v.len > 0);
 }
 
-fn h_views<C: Mk>() {
+fn h_views<C: Mk>(mut d: SlidingDeque<C>) {
     // front/back/front_mut/back_mut/deref/deref_mut: values, and in-place writes change
     // exactly the addressed element.
-    let mut d = any_valid::<C>();
     let v = view_of(&d);
     assert!(d.len() == v.len);
     assert!(d.is_empty() == (v.len == 0));
@@ -230,12 +240,12 @@ macro_rules! both {
         #[kani::proof]
         #[kani::unwind(@@U@@)]
         fn $vec() {
-            $h::<Vec<u8>>()
+            for_each_state::<Vec<u8>>($h::<Vec<u8>>)
         }
         #[kani::proof]
         #[kani::unwind(@@U@@)]
         fn $small() {
-            $h::<SmallVec<[u8; 2]>>()
+            for_each_state::<SmallVec<[u8; 2]>>($h::<SmallVec<[u8; 2]>>)
         }
     };
 }
@@ -247,4 +257,13 @@ both!(h_advance, c15_vec_advance, c15_small_advance);
 both!(h_clear, c15_vec_clear, c15_small_clear);
 both!(h_slide, c15_vec_slide, c15_small_slide);
 both!(h_views, c15_vec_views, c15_small_views);
-both!(h_new_from, c15_vec_new_from, c15_small_new_from);
+#[kani::proof]
+#[kani::unwind(@@U@@)]
+fn c15_vec_new_from() {
+    h_new_from::<Vec<u8>>()
+}
+#[kani::proof]
+#[kani::unwind(@@U@@)]
+fn c15_small_new_from() {
+    h_new_from::<SmallVec<[u8; 2]>>()
+}
